@@ -517,6 +517,10 @@ def junction_mnv(anno, genome, tx_id: str, rng: random.Random):
     if p < 1:
         return []
     out = [dele]
+    # the pair straddles the junction (p-1, p) or ends on the deletion's anchor base (p-2, p-1):
+    # in the second layout the Deletion record sorts BETWEEN the two SNVs of the pair
+    if rng.random() < 0.6 and p >= 2:
+        p -= 1
     for q in (p - 1, p):
         try:
             g = anno.coordinate_transcript_to_genomic(q, tx_id)
